@@ -5,7 +5,8 @@ A recipe is a list of nodes, bottom first:
    "opacity": 0..255, "fill": 0..255 | None, "blend": "MULTIPLY", "visible": bool, "clip": bool,
    "knockout": bool, "mask": {"rect": [l,t,r,b], "bg": 0|255, "data": uint8 (h,w), "disabled": bool,
    "density": int | None} | None}
-  {"t": "group", "blend": "PASS_THROUGH" | ..., "opacity", "fill", "visible", "clip", "knockout", "children": [...]}
+  {"t": "group", "blend": "PASS_THROUGH" | ..., "opacity", "fill", "visible", "clip", "knockout", "mask": as above | None,
+   "children": [...]}
 Records are built with the library's own low-level classes and the document is
 serialised and re-opened, so what is composited went through the real reader.
 """
@@ -72,8 +73,14 @@ def _records(nodes, depth, compression, out_recs, out_chans, counter):
             g.blend_mode = BlendMode.NORMAL if blend == BlendMode.PASS_THROUGH else blend
             _common(g, n)
             g.channel_info = [ChannelInfo(id=ChannelID(i - 1), length=2) for i in range(4)]
+            gch = ChannelDataList([ChannelData(compression=Compression.RAW, data=b"") for _ in range(4)])
+            m = n.get("mask")
+            if m:       # a raster mask on the group record, stored like a pixel layer's
+                g.mask_data, minfo, mchan = _mask(m, compression)
+                g.channel_info.append(minfo)
+                gch.append(mchan)
             out_recs.append(g)
-            out_chans.append(ChannelDataList([ChannelData(compression=Compression.RAW, data=b"") for _ in range(4)]))
+            out_chans.append(gch)
             continue
         l, t, r, b = n["rect"]
         w, h = r - l, b - t
@@ -91,18 +98,24 @@ def _records(nodes, depth, compression, out_recs, out_chans, counter):
             chans.append(_chan(_bytes(color[:, :, ci], depth), w, h, depth, compression))
         m = n.get("mask")
         if m:
-            ml, mt, mr, mb = m["rect"]
-            params = None
-            if m.get("density") is not None:
-                params = MaskParameters(user_mask_density=int(m["density"]))
-            rec.mask_data = MaskData(top=mt, left=ml, bottom=mb, right=mr, background_color=int(m.get("bg", 0)),
-                                     flags=MaskFlags(mask_disabled=bool(m.get("disabled", False)),
-                                                     parameters_applied=params is not None), parameters=params)
-            infos.append(ChannelInfo(id=ChannelID.USER_LAYER_MASK, length=2))
-            chans.append(_chan(_bytes(m["data"], 8), mr - ml, mb - mt, 8, compression))
+            rec.mask_data, minfo, mchan = _mask(m, compression)
+            infos.append(minfo)
+            chans.append(mchan)
         rec.channel_info = infos
         out_recs.append(rec)
         out_chans.append(chans)
+
+
+def _mask(m, compression):
+    """(MaskData, ChannelInfo, ChannelData) of a raster mask {"rect", "bg", "data", "disabled", "density"}"""
+    ml, mt, mr, mb = m["rect"]
+    params = None
+    if m.get("density") is not None:
+        params = MaskParameters(user_mask_density=int(m["density"]))
+    md = MaskData(top=mt, left=ml, bottom=mb, right=mr, background_color=int(m.get("bg", 0)),
+                  flags=MaskFlags(mask_disabled=bool(m.get("disabled", False)),
+                                  parameters_applied=params is not None), parameters=params)
+    return md, ChannelInfo(id=ChannelID.USER_LAYER_MASK, length=2), _chan(_bytes(m["data"], 8), mr - ml, mb - mt, 8, compression)
 
 
 def _bytes(arr, depth):
